@@ -178,8 +178,8 @@ int main(int argc, char **argv)
     for (int t = 0; t < k; ++t)
       th.emplace_back([&, t] {
         ready++;
-        while (ready.load() < k) {
-        }
+        while (ready.load() < k)
+          std::this_thread::yield();
         for (int r = 0; r < rounds; ++r)
           if (writeAny(fmt, prefix + "." + std::to_string(t), (int)w, (int)h, (const unsigned char *)blocks[(size_t)t]) != 0)
             bad++;
